@@ -60,6 +60,7 @@ struct Task {
 	int skippast = 0;                // CB_SKIP accepts skipping past the end
 	int erronce = 0;                 // S-ERR is transient: one read call fails (errno errerrno), the following ones succeed
 	int errerrno = 5;                // errno of S-ERR on FILE kinds (EIO by default)
+	int64_t prepos = 0;              // the caller has already consumed this many bytes of the source before handing it to the library
 	int endless = 0;                 // S-ENDLESS: the source never reports end of input, its bytes repeat for ever
 	std::string dir;                 // SimFS working directory of this task
 	std::vector<Op> ops;
